@@ -13,9 +13,14 @@ META = {
              "Hv.C30.holds_nonneg adds reply visibility for times >= 0 (wire_agrees_nonneg); not_holds_gt0 / preepoch_disagreement: "
              "with `> 0` on the wire a pre-epoch expiry is expired, indexed and invisible; not_holds_of_not_good: any deviating site "
              "(<=, missing guard, missing zero filter, swapped clear/set) has a closed witness; reload_exp: the expiry survives "
-             "close + reload under either encoding; stale_index_witness / preepoch_patch_witness: closed request-level witnesses."),
+             "close + reload under either encoding; FailKeepsExpiry (fail_keeps_expiry / not_fail_keeps_expiry): a conditional Increment that "
+             "answers 'not incremented' leaves every expiry as it was iff incFailClean — the one write path that bypasses the index; "
+             "Full = Holds ∧ FailKeepsExpiry is what the verdict is about; stale_index_witness / preepoch_patch_witness: closed "
+             "request-level witnesses."),
     "note": ("Trusted: Lean kernel; extract/c30.go; harness/c30.go + c06.go (GetByIndexStream through an in-process stream stub). The "
-             "theorems are about the extracted predicates; that the handlers apply them as modelled (index build and maintenance, "
+             "theorems are about mechanisms (the extracted predicates, the failure branch of Increment); the request-level clauses — ShiftExpired / "
+             "GetByIndex / the ExpiredAt filter answer alike on every history, ordered reads are sorted, reload preserves the index — are "
+             "TESTED (correspondence + the expiry oracle over implementation replies), not proved; that the handlers apply the predicates as modelled (index build and maintenance, "
              "claim walks, patch metadata) is validated by the correspondence run, not proved. Expiries of different keys are kept "
              "distinct (the index sort is unstable). Timing: past expiries may be arbitrarily close to the case base (requests run after it), future ones are >= 20 s away, the one expiry that passes during a case is bracketed by waits (3 s of slack before, certain after)."),
     "design_ref": "§8 C30",
